@@ -28,6 +28,7 @@ func pushScenario(t *rapid.T, restartFocus bool) sim.Scenario {
 	sc.Cfg.Salt = rapid.Uint64().Draw(t, "salt")
 	sc.Cfg.Chan = pick(t, "chan", []string{"direct", "pipe", "fragile"})
 	sc.Cfg.Yield = pick(t, "yield", []int{0, 0, 2})
+	sc.Cfg.LogYield = pick(t, "logyield", []int{0, 0, 0, 3, 40}) // a Logger that yields: whatever is logged outside the mutex is a window
 	if rapid.IntRange(0, 9).Draw(t, "nohooks") == 0 {
 		sc.Cfg.NoHooks = true
 	}
